@@ -385,6 +385,15 @@ class T(Entity):
         for k, L in enumerate([Leaf0, Leaf1, Leaf2, Leaf3, Leaf4, Leaf5, Leaf6]):
             L(a=self.a, y=outs[k])
 ''',
+    "array-typed-port": HDR.replace("enum", "enum, Array") + '''
+class T(Entity):
+    pa = Port.input(Array[BitVector[2], 3])
+    o = Port.output(BitVector[6])
+    def architecture(self):
+        @std.concurrent
+        def logic():
+            self.o <<= std.to_bits(self.pa)
+''',
     "portless-entity-instantiated": HDR + '''
 class Leaf(Entity):
     def architecture(self):
